@@ -329,7 +329,7 @@ def nontrivial(f):
     return True
 
 
-def classify(f, io):
+def _classify(f, io):
     if not io:
         return f[0] + ":none"
     if f[0] == "L":
@@ -350,7 +350,7 @@ def classify(f, io):
     return "V:err:" + tag
 
 
-def predicate(f, io):
+def _predicate(f, io):
     """the property, evaluated on what /repo returned (independent of the Coq model)"""
     if not io or io[0] in ("PANIC", "HANG"):
         return False, "implementation " + (io[0] if io else "gave no result")
@@ -411,10 +411,10 @@ def _budget_finding(f, io):
     return bool(good)
 
 
-FINDING_MATCHERS = {"verify-sigcheck-budget": _budget_finding}
+FINDING_MATCHERS = {}   # filled at the end of the file (guarded)
 
 
-def same(f, io, mo):
+def _same(f, io, mo):
     """projected observables only: ok/error class and, when ok, the SET of chains"""
     if f[0] == "V":
         if io[0] != mo[0]:
@@ -423,3 +423,21 @@ def same(f, io, mo):
             return set(io[1].split(",")) == set(mo[1].split(","))
         return True
     return io[:2] == mo[:2]
+
+
+# An observation or model line that does not have the shape its case expects (a truncated file, a line of another
+# run) must not crash the check: it is reported as a failure of that case.
+def _guarded(fn, default):
+    def g(*a):
+        try:
+            return fn(*a)
+        except (IndexError, ValueError, KeyError) as e:
+            return default(e)
+    return g
+
+
+predicate = _guarded(_predicate, lambda e: (False, "malformed observation for this case (%s: %s)" % (type(e).__name__, e)))
+same = _guarded(_same, lambda e: False)
+classify = _guarded(_classify, lambda e: "malformed")
+
+FINDING_MATCHERS["verify-sigcheck-budget"] = _guarded(_budget_finding, lambda e: False)
